@@ -85,7 +85,7 @@ def gen_flow(rng, tier):
 def augment(rng, c, p_marg=0.6):
     """AugmentedFlowProposal: extra Gaussian dimensions, optionally marginalised over n_marg fresh draws per point."""
     c["cls"] = "augmented"
-    c["augment_dims"] = rng.choice([1, 1, 2])
+    c["augment_dims"] = rng.choice([1, 2, 2, 3])
     c["marg"] = rng.random() < p_marg
     c["n_marg"] = rng.choice([1, 2, 3, 5, 8])
     if c["marg"]:
@@ -108,6 +108,37 @@ def radius_sequence(rng, c):
             rs.sort(reverse=rng.random() < 0.7)
         c["radii"] = rs
         c["radius_all"] = c["radius_mode"] == "worst" and rng.random() < 0.2
+
+
+def gen_latent(rng, tier):
+    out = []
+    for latent in ("truncated_gaussian", "uniform_nball", "uniform_nsphere", "gaussian", "uniform", "flow"):
+        for dims in (1, 2, 3, 8):
+            if latent == "flow" and dims == 1:
+                continue
+            out.append({"seed": rng.randrange(1 << 30), "latent": latent, "dims": dims, "r": rng.choice([0.7, 1.5, 2.5, 4.0]),
+                        "fuzz": rng.choice([1.0, 1.2]), "n": 4000 if tier == "quick" else 20000})
+    return out
+
+
+def latent_predicate(c, r):
+    """exact binomial bounds on the bin counts, total false-alarm probability below 1e-9 per case"""
+    from scipy.stats import binom
+    bad, tests = [], 0
+    nstat = max(1, sum(len(v["counts"]) for v in r["stats"].values()))
+    alpha = 1e-9 / (2 * nstat)
+    for name, v in r["stats"].items():
+        if v.get("outside"):
+            bad.append(f"{name}: {v['outside']} draws outside the support of the stated density")
+        n = sum(v["counts"])
+        for k, q in zip(v["counts"], v["probs"]):
+            tests += 1
+            lo, hi = binom.ppf(alpha, n, q), binom.isf(alpha, n, q)
+            if not lo <= k <= hi:
+                bad.append(f"{name}: bin counts {v['counts']} of {n} draws, expected probabilities {v['probs']} "
+                           f"(allowed {int(lo)}..{int(hi)} per bin)")
+                break
+    return bad, tests
 
 
 def gen_rej(rng, tier):
@@ -310,7 +341,7 @@ def run(chk):
     if sk:
         today(chk, sk)
     job = {"flow": gen_flow(rng, chk.tier), "rej": gen_rej(rng, chk.tier), "radial": gen_radial(rng, chk.tier),
-           "prims": [{"pairs": gen_prims(rng, chk.tier)}]}
+           "prims": [{"pairs": gen_prims(rng, chk.tier)}], "latent": gen_latent(rng, chk.tier)}
     ins_job = {"ins": gen_ins(rng, chk.tier)}     # own process: the importance sampler adds global live-point fields
     if chk.tier != "quick":
         job["stat"] = [{"seed": rng.randrange(1 << 30), "prior": pr, "N": 1500, "acc": a}
@@ -346,7 +377,7 @@ def run(chk):
                    "correspondence", bad == [], e or "mismatch: " + "; ".join(lits[i] for i in (bad or [])[:3]))
         chk.oracle_validations += len(lits)
     # ---- flow populations ---------------------------------------------------------------------------------
-    plain, accl, drawl, same, margl = [], [], [], [], []
+    plain, accl, drawl, same, margl, augl = [], [], [], [], [], []
     for c, r in zip(job["flow"], res["flow"]):
         chk.evaluations += 1
         if "child_error" in r or "config_error" in r:
@@ -379,6 +410,17 @@ def run(chk):
                     scale = max([1.0] + [abs(float.fromhex(t)) for t in mr["terms"]])
                     margl.append(cT(cN(mr["n_marg"]), cL(map(cE, mr["terms"])), cE(mr["ln_n"]),
                                     cE((scale * 2.0 ** -20).hex()), cL(map(cE, mr["outs"]))))
+            if pop.get("augment_dims"):
+                chk.count(f"flow:augment_dims={pop['augment_dims']}:{'marginalised' if c.get('marg') else 'product-prior'}")
+            if pop.get("prior_err", 0.0) > 1e-9:
+                chk.fail("C09:weight-prior-not-the-full-prior",
+                         f"the log-prior that enters the rejection weights differs by {pop['prior_err']:.3g} from the model's prior at "
+                         f"the point plus log N(e_k) summed over all {pop.get('augment_dims')} augment parameters "
+                         f"({c['cls']} proposal)", {"kind": "flow", "case": c, "population": pi})
+            for ar in pop.get("aug_prior", []):
+                for m_, fs_, top_ in zip(ar["model"], ar["factors"], ar["top"]):
+                    vals = [abs(float.fromhex(v)) for v in [m_] + fs_ if fin(v)]
+                    augl.append(cT(cE(m_), cL(map(cE, fs_)), cE((max([1.0] + vals) * 2.0 ** -40).hex()), cE(top_)))
             cands = [x for b in pop["batches"] for x in b["cands"]]
             support = {x[0]: (x[3] and fin(x[4])) for x in cands}
             nonfin = any(not fin(x[1]) for x in cands)
@@ -523,6 +565,24 @@ def run(chk):
                          f"of {d['lik_points']} points outside the prior support, e.g. {d['lik_outside'][:2]}", rp)
             if all(i >= 0 for i in d["out"]):
                 ffl.append(cT(cL(map(lit_cand, d["cands"])), cL(map(cN, d["out"]))))
+    # ---- oracle validation: latent draws follow the density whose log-density is used as log_q -----------------------------
+    for c, r in zip(job.get("latent", []), res.get("latent", [])):
+        chk.evaluations += 1
+        if r.get("skipped"):
+            continue
+        if "child_error" in r:
+            chk.fail("C09:child-error", r.get("trace", "")[-300:], {"kind": "latent", "case": c})
+            continue
+        chk.count(f"latent-distribution:{c['latent']}:dims={c['dims']}")
+        bad, tests = latent_predicate(c, r)
+        chk.oracle_validations += tests
+        if not r["shape_ok"]:
+            bad.append("wrong shape")
+        if bad:
+            chk.fail(f"C09:latent-draw-not-from-stated-density:{c['latent']}",
+                     f"latent prior {c['latent']} in {c['dims']} dimensions (r = {c['r']}, fuzz = {c['fuzz']}, via {r['how']}): the "
+                     "draws do not follow the density whose log-density populate uses as log_q - " + bad[0],
+                     {"kind": "latent", "case": c})
     # ---- radial samplers ----------------------------------------------------------------------------------------
     for c, r in zip(job["radial"], res["radial"]):
         chk.evaluations += 1
@@ -586,6 +646,8 @@ def run(chk):
         ("acc", "chk_acc", accl, "FlowProposal.populate (accumulate_weights): ids of self.x = model acc_populate"),
         ("marg", "chk_marg", margl, "AugmentedFlowProposal._marginalise_augment: every returned value is enclosed by the maximum "
                                     "of ITS OWN block of recomputed terms (model blocks; logsumexp is an oracle)"),
+        ("augprior", "chk_augprior", augl, "AugmentedFlowProposal.log_prior = model full_prior (model prior + log N(e_k) over ALL "
+                                           "augment parameters) at the recorded component values"),
         ("rej", "chk_rej", rejl, "RejectionProposal.populate: pool = model new_points ; rej_populate"),
         ("newp", "chk_newp", newl, "Model.new_point / AnalyticProposal.populate / populate_live_points = model new_points"),
         ("insdraw", "chk_insdraw", insl, "ImportanceFlowProposal.draw = model ins_draw"),
@@ -610,7 +672,7 @@ def run(chk):
 def replay(data):
     rp = data["replay"]
     kind = rp.get("kind")
-    if kind not in ("flow", "rej", "ins", "radial"):
+    if kind not in ("flow", "rej", "ins", "radial", "latent"):
         print("replay of a real run: re-run ./check C09")
         return 0
     r = subprocess.run([common.PY, os.path.join(common.VERIF, "harness", "c09_child.py")],
@@ -633,6 +695,8 @@ def replay(data):
         pop = dict(res)
         pop["pool_samples"] = res["pool"]
         fails += check_pool(pop, {x[0]: (x[3] and fin(x[4])) for x in cands}, c["N"], c["what"] != "rejection")
+    if kind == "latent" and "stats" in res:
+        fails += [("C09:latent-draw-not-from-stated-density", b) for b in latent_predicate(c, res)[0]]
     print(json.dumps({"case": c, "failures": fails, "observed": {k: v for k, v in res.items() if k != "pops"}})[:3000])
     if fails:
         print(f"VIOLATION property={PID} replay=(replayed) {fails[0][1]}")
